@@ -1265,6 +1265,100 @@ def _n71(tree):
     return tree
 
 
+def _n72(fn):
+    """N72 keyword arguments collected in a local dict: `opts = dict(a=X, b=Y)` / `{'a': X, 'b': Y}` bound once, never modified and
+    only ever used as `f(.., **opts)` -> the keywords are written out at each call (X, Y: names that are not re-bound, constants and
+    operators on them - evaluating them once or at each call is the same)"""
+    def simple(e):
+        for n in ast.walk(e):
+            if not isinstance(n, (ast.Name, ast.Constant, ast.UnaryOp, ast.Not, ast.USub, ast.Load, ast.BoolOp, ast.And, ast.Or, ast.Attribute,
+                                  ast.Compare, ast.Is, ast.IsNot, ast.Eq, ast.NotEq)):
+                return False
+        return True
+    stores_all = {}
+    for n in ast.walk(fn):
+        if isinstance(n, ast.Name) and not isinstance(n.ctx, ast.Load):
+            stores_all[n.id] = stores_all.get(n.id, 0) + 1
+    args = {a.arg for a in ast.walk(fn.args) if isinstance(a, ast.arg)}
+    for holder, fld, blk in list(_blocks(fn)):
+        for st in list(blk):
+            if not (isinstance(st, ast.Assign) and len(st.targets) == 1 and isinstance(st.targets[0], ast.Name)):
+                continue
+            v, val = st.targets[0].id, st.value
+            pairs = None
+            if isinstance(val, ast.Call) and isinstance(val.func, ast.Name) and val.func.id == 'dict' and not val.args and val.keywords \
+                    and all(k.arg for k in val.keywords):
+                pairs = [(k.arg, k.value) for k in val.keywords]
+            elif isinstance(val, ast.Dict) and val.keys and all(isinstance(k, ast.Constant) and isinstance(k.value, str) and k.value.isidentifier()
+                                                                for k in val.keys):
+                pairs = [(k.value, x) for k, x in zip(val.keys, val.values)]
+            if not pairs or stores_all.get(v, 0) != 1 or v in args or not all(simple(x) for _, x in pairs):
+                continue
+            free = {n.id for _, x in pairs for n in ast.walk(x) if isinstance(n, ast.Name)}
+            if any(stores_all.get(nm, 0) > (0 if nm in args else 1) for nm in free):
+                continue        # a value's name is re-bound somewhere: once vs. at each call could differ
+            uses = [n for n in ast.walk(fn) if isinstance(n, ast.Name) and n.id == v and isinstance(n.ctx, ast.Load)]
+            kws = [(c, k) for c in ast.walk(fn) if isinstance(c, ast.Call) for k in c.keywords if k.arg is None and isinstance(k.value, ast.Name)
+                   and k.value.id == v]
+            if not uses or len(uses) != len(kws):
+                continue
+            if any({k2.arg for k2 in c.keywords if k2.arg} & {a for a, _ in pairs} for c, _ in kws):
+                continue
+            for c, k in kws:
+                i = c.keywords.index(k)
+                c.keywords[i:i + 1] = [ast.keyword(a, copy.deepcopy(x)) for a, x in pairs]
+                ast.fix_missing_locations(c)
+            blk.remove(st)
+            if not blk:
+                blk.append(ast.copy_location(ast.Pass(), st))
+
+
+def _n73(fn):
+    """N73 a defaulted parameter continued under another name: `v = FRESH if p is None else p` (or `p if p is not None else FRESH`,
+    or the if/else statement form), p a parameter not read anywhere else, v bound only there -> `if p is None: p = FRESH` and v is p"""
+    params = {a.arg for a in ast.walk(fn.args) if isinstance(a, ast.arg)}
+
+    def none_test(t):
+        if isinstance(t, ast.Compare) and len(t.ops) == 1 and isinstance(t.left, ast.Name) and isinstance(t.comparators[0], ast.Constant) \
+                and t.comparators[0].value is None and isinstance(t.ops[0], (ast.Is, ast.IsNot)):
+            return t.left.id, isinstance(t.ops[0], ast.Is)
+        return None, None
+    for holder, fld, blk in list(_blocks(fn)):
+        for i, st in enumerate(list(blk)):
+            v = pn = fresh = None
+            if isinstance(st, ast.Assign) and len(st.targets) == 1 and isinstance(st.targets[0], ast.Name) and isinstance(st.value, ast.IfExp):
+                pn, is_none = none_test(st.value.test)
+                a, b = (st.value.body, st.value.orelse) if is_none else (st.value.orelse, st.value.body)
+                if pn and isinstance(b, ast.Name) and b.id == pn:
+                    v, fresh = st.targets[0].id, a
+            elif isinstance(st, ast.If) and len(st.body) == 1 and len(st.orelse) == 1 and all(
+                    isinstance(x, ast.Assign) and len(x.targets) == 1 and isinstance(x.targets[0], ast.Name) for x in (st.body[0], st.orelse[0])) \
+                    and st.body[0].targets[0].id == st.orelse[0].targets[0].id:
+                pn, is_none = none_test(st.test)
+                a, b = (st.body[0].value, st.orelse[0].value) if is_none else (st.orelse[0].value, st.body[0].value)
+                if pn and isinstance(b, ast.Name) and b.id == pn:
+                    v, fresh = st.body[0].targets[0].id, a
+            if not v or pn not in params or v in params or v == pn:
+                continue
+            if any(isinstance(n, ast.Name) and n.id == pn for n in ast.walk(fresh)):
+                continue
+            inside = {id(n) for n in ast.walk(st)}
+            if any(isinstance(n, ast.Name) and n.id == pn and id(n) not in inside for n in ast.walk(fn)):
+                continue
+            if sum(1 for n in ast.walk(fn) if isinstance(n, ast.Name) and n.id == v and not isinstance(n.ctx, ast.Load) and id(n) not in inside):
+                continue
+            new_if = ast.If(ast.Compare(ast.Name(pn, ast.Load()), [ast.Is()], [ast.Constant(None)]),
+                            [ast.Assign([ast.Name(pn, ast.Store())], fresh)], [])
+            ast.copy_location(new_if, st)
+            ast.fix_missing_locations(new_if)
+            blk[blk.index(st)] = new_if
+            for n in ast.walk(fn):
+                if isinstance(n, ast.Name) and n.id == v:
+                    n.id = pn
+            return True
+    return False
+
+
 def pre_normalize(tree: ast.Module) -> ast.Module:
     tree = _n71(tree)
     tree = _n39(tree)
@@ -1281,6 +1375,8 @@ def pre_normalize(tree: ast.Module) -> ast.Module:
     for fn in [n for n in ast.walk(tree) if isinstance(n, (ast.FunctionDef, ast.AsyncFunctionDef))]:
         _n68(fn)
         _n70(fn, counter)
+        _n72(fn)
+        _n73(fn)
         _n64(fn)
         _n63(fn)
         _n67(fn)
